@@ -1695,6 +1695,11 @@ def task_f0(ctx, n, sweep=True):
 
 
 def tasks(tier):
+    from .. import depth
+    return _tasks(tier) + [("little-stack", depth.task, dict(prop=PROPERTY))]
+
+
+def _tasks(tier):
     out = [("sweep-%d" % k, task_sweep, dict(shard=k, nshards=3)) for k in range(3)]
     if tier == "quick":
         out += [("factors-a", task_factors, dict(n=1750)),
@@ -1728,6 +1733,9 @@ def tasks(tier):
 
 
 def replay(ctx, case):
+    if isinstance(case, dict) and case.get("kind") == "little-stack":
+        from .. import depth
+        return depth.check(ctx, case)
     kind = case["kind"]
     if kind == "factors":
         check_factors(ctx, case["value"], case.get("strict_ends", False))
